@@ -48,7 +48,8 @@ CONSTANT ClearOnError
 (*   p      name of the ROOT parser the call is made on                    *)
 (*   eoe    the parser was built with exit_on_error=True                   *)
 (*   kw     code of {"env":..,"defaults":..} passed to parse_args          *)
-(*   tag    code of the argv list (what parser.args will hold)             *)
+(*   tag    code of the argv list (what parser.args will hold); stag: of   *)
+(*          the part after the sub-command token (the sub-parser's args)   *)
 (*   items  argv items handled by the root parser, left to right:          *)
 (*            ok        a valid option                                     *)
 (*            bad       an option whose value is rejected (raises at once) *)
@@ -58,8 +59,8 @@ CONSTANT ClearOnError
 (*            help      --help ;  clshelp  --<cls>.help=<class>            *)
 (*            cfg       --cfg <valid config> (nested parse_string/path)    *)
 (*            cfgbad    --cfg <invalid config>                             *)
-(*            ncls      --<cls>.<init_arg>=v (nested parse_args of a       *)
-(*                      throw-away class parser)                           *)
+(*            ncls      --<cls>.<init_arg>=v: parse_object of a throw-away *)
+(*                      class parser (_typehints.py:1440), no residue      *)
 (*   sub    "none" or the sub-command token; sitems its argv items         *)
 (*   pre    "ok" | "fail": failure before the print point that is not an   *)
 (*          argv item (bad object / string / environment value; for the    *)
@@ -74,7 +75,6 @@ CONSTANT ClearOnError
 ParseMethods == {"parse_args", "parse_object", "parse_string", "parse_env"}
 Stoppers     == {"bad", "pcflag", "help", "clshelp", "cfgbad"}
 PrintDK      == "skip_none=False,skip_validation=False"     \* what the print point passes to dump (_actions.py:257,286)
-InnerPK      == "env=None,defaults=False"                   \* parse_args of a class parser during argv (_typehints.py:1420-1425)
 
 ErrCh(o) == IF o.eoe THEN "exit2" ELSE "error"               \* parser.error: _core.py:1056-1068
 
@@ -142,7 +142,6 @@ Items(o, its, k, lvl) ==
                              Enter("load_value_mode", "mode"), Leave>>                                 \* _actions.py:191-205, _core.py:667-668
                            \o (IF lvl = "root" THEN <<PrintPt(o.p, "none", "none", ErrCh(o))>> ELSE << >>)         \* parse_string -> _parse_common:375
                            \o <<Leave, Leave, Leave>> \o rest
-      [] it = "ncls"    -> <<SetU("pk", InnerPK), SetU("sap", "inner")>> \o rest                       \* _typehints.py:1420-1425
       [] OTHER          -> rest                                                                       \* ok / unk: no residue, no manager
 
 \* parse_known_args of parser `pn`: _core.py:299-310.  `after` is what follows when no item stops the loop.
@@ -164,7 +163,7 @@ Common(o, pn, isRoot) ==
 \* the nested parse_args of the sub-command parser, started by _ActionSubCommands.__call__ (_actions.py:660-674)
 SubCall(o) ==
   LET sp == SubName(o.p, o.sub) IN
-  <<ReadU("pk"), I("args", sp, o.tag, "", ""), I("rewrite", "pk", "", "", "")>>                               \* :673 reads parse_kwargs; sub parse_args :447,:454
+  <<ReadU("pk"), I("args", sp, o.stag, "", ""), I("rewrite", "pk", "", "", "")>>                               \* :673 reads parse_kwargs; sub parse_args :447,:454
   \o Known(o, sp, o.sitems, o.sub,
            <<Leave, Leave, Leave>>
            \o (IF HasBefore(o.sitems, "unk", 0) THEN <<Fail(ErrCh(o))>> ELSE Common(o, sp, FALSE)))
